@@ -77,7 +77,7 @@ class Check(Prop):
             "distinct by (SHA-1(program), mode, row).")
     ASSUMPTIONS = (
         "in-process candidates are re-run on the guard-off ti binary before being reported",
-        "a hang is believed only after 3/3 `timeout` on an exclusively held machine",
+        "a hang is believed only after 3/3 `timeout` on an exclusively held machine, and only if every one of the three runs burnt >= 0.3 s CPU itself (a descheduled fast run has not) or the in-process rounds do not finish within 8 s either",
     )
     BUDGET = {"quick": 2400, "thorough": 40000}
     WALL = {"quick": 150, "thorough": 1500}
